@@ -38,6 +38,7 @@ def run(ctx):
     ctx.floor('R-RC.f HashMap relocators', nrel, 1)
     check_map(ctx, prog)
     check_set(ctx, prog)
+    check_share(ctx, prog)
     return __doc__.split('\n\n', 1)[1]
 
 
@@ -449,3 +450,30 @@ def check_set(ctx, prog):
         ctx.check(not bad, 'C02.set', f['pq'], f['n'] + f['sig'] + ':thin', fwhere(f), 'built from has / operator[] / remove / enumeration only',
                   'Set member touches buckets, nodes or the count directly: %s' % [pe(b) for b in bad[:3]])
     ctx.floor('C02.set', n, 30)
+
+
+def check_share(ctx, prog):
+    n = 0
+    for cls in ('asl::Map', 'asl::HashMap'):
+        for f in prog.functions:
+            if f.get('clsp') != cls or not f.get('body') or f.get('implicit'):
+                continue
+            if f.get('kind') in ('ctor', 'dtor') or f['n'] in ('operator=', 'dup', 'rehash', 'clone'):
+                continue
+            pids = set(p['id'] for p in f['params'] if T(f, T(f, p['t']).get('to')).get('recp') in ('asl::Map', 'asl::HashMap', 'asl::Dic', 'asl::HashDic'))
+            if not pids:
+                continue
+            n += 1
+            ctx.analysed(f)
+            bad = []
+            for e in fn_exprs(f):
+                if e.get('k') == 'call' and e.get('pq') in ('asl::Array::operator=',) and e.get('obj') is not None and strip_lv(e['obj']).get('f') == 'a' and strip_lv(strip_lv(e['obj']).get('b') or {}).get('k') == 'this':
+                    src = strip(e['a'][0])
+                    if src.get('k') == 'mem' and src.get('f') == 'a' and strip(src.get('b') or {}).get('id') in pids:
+                        bad.append(e)
+            role = f['n'] + f['sig'] + ':copies entries, never adopts the argument\'s storage'
+            if bad:
+                ctx.violation('R-SHARE', f['pq'], role, fwhere(f, bad[0]['l']), '%s assigns the argument\'s element array by handle (`%s`): both maps then share one storage, a later insert/remove through either changes the other (and growth leaves it dangling) (%s)' % (f['pq'], pe(bad[0]), f['q']))
+            else:
+                ctx.ok('R-SHARE', f['pq'], role, fwhere(f), 'entries are copied one by one')
+    ctx.floor('R-SHARE map members', n, 3)
